@@ -366,7 +366,7 @@ Proof.
   - intros _. split; [exact Hdec|].
     unfold flags_inv, newReader. cbn [eof haveBits state rBuf inputNil inflate0 rd br0 r_len].
     split; [intros Hc; discriminate Hc|].
-    intros _ _ Hs. rewrite B2, Hcs in Hs. cbn in Hs. subst data.
+    intros _ _ Hs. rewrite B2, Hcs in Hs. cbn in Hs. rewrite Hs.
     vm_compute. discriminate.
   - reflexivity.
   - intros e He. discriminate He.
@@ -398,7 +398,7 @@ Proof.
     { unfold results_bytes. rewrite map_rev. clear. induction (map fst l) as [|a m IH]; [reflexivity|].
       cbn [rev concat]. rewrite concat_app, !app_length, IH. cbn [concat length]. rewrite app_nil_r. lia. }
     destruct Hp as [z Hz]. apply (f_equal (@length N)) in Hz. rewrite app_length in Hz.
-    rewrite rev_length in Hge. cbn [length] in Hl. lia.
+    rewrite rev_length in Hge. cbn [length] in Hl. unfold byte in *. lia.
   - exists bytes, r. subst l.
     split; [apply last_app_single|]. split; [destruct pre; discriminate|].
     assert (Hnr : r <> RPanic /\ r <> RStuck).
